@@ -141,6 +141,27 @@ def cases(tier, seed):
                     "rt.bwrite %d 00150016" % rnd.randint(15, 24), "rt.bread 16 6", "rt.foreach 14 16 -", "rt.sanitise"]
             first = False
         cs.append(Case("re%d" % j, seq, ("re-initialisation",)))
+    # ... in particular edits after which a register still starts where it did but does not fit any more: its area
+    # shrunk by a word or two, or the register widened; and the edits back.  The verdict is that of a fresh description.
+    for j in range(80 if tier == "quick" else 800):
+        aset = rnd.choice(multi)
+        lay = rnd.choice(good_layouts)
+        parts = [a.split(":") for a in aset.split("|")]
+        seq = ["rt.table %d %s %s" % (j % 2, aset, "|".join(entry(rnd, sz, a, True) for a, sz in lay)), "rt.init"]
+        for _ in range(rnd.choice([1, 2, 2])):
+            lay2, parts2 = list(lay), [list(x) for x in parts]
+            if rnd.random() < 0.5:
+                k = rnd.randrange(len(parts2))
+                parts2[k][1] = str(max(0, int(parts2[k][1]) - rnd.choice([1, 1, 2, 3])))
+            else:
+                i = rnd.randrange(len(lay2))
+                lay2[i] = (lay2[i][0], rnd.choice([s2 for s2 in (1, 2, 4) if s2 != lay2[i][1]]))
+            aset2 = "|".join(":".join(x) for x in parts2)
+            seq += ["rt.edit %d %s %s" % (j % 2, aset2, "|".join(entry(rnd, sz, a, True) for a, sz in lay2)), "rt.init"]
+            seq += ["rt.get %d" % i for i in range(len(lay2) + 1)] + ["rt.bread 16 6", "rt.sanitise"]
+            if rnd.random() < 0.5:
+                seq += ["rt.edit %d %s %s" % (j % 2, aset, "|".join(entry(rnd, sz, a, True) for a, sz in lay)), "rt.init", "rt.bread 16 6"]
+        cs.append(Case("refit%d" % j, seq, ("re-initialisation", "no-longer-fits")))
     return cs
 
 
